@@ -171,6 +171,14 @@ def main(argv=None):
         if distinct_nontrivial < getattr(mod, "MIN_NONTRIVIAL", 2):
             inconclusive.append(f"only {distinct_nontrivial} distinct non-trivial cases")
 
+    if not args.replay and hasattr(mod, "finalize"):
+        try:
+            more_notes, more_inc = mod.finalize(classes, monitors, tier)
+            notes.update(more_notes)
+            inconclusive.extend(more_inc)
+        except Exception as e:  # noqa: BLE001
+            inconclusive.append(f"finalize hook failed: {e!r}")
+
     # ---- violations: known finding or new --------------------------------------------------------
     new_lines = []
     known_lines = []
